@@ -502,7 +502,8 @@ Proof.
   destruct (dst_section_spec t (e_dst e) s en Hs (tpwf_twf t Hw) Hsec) as (Hb & _).
   destruct (Nat.leb_spec en s) as [Hle|Hgt].
   - match goal with |- context [if ?c then Ok (t, false) else _] => destruct c end; intros H; inversion H; subst; [split; assumption|exact Hins].
-  - match goal with |- context [match ?f with Some _ => _ | None => _ end] => destruct f as [i|] eqn:Hf end.
+  - match goal with |- context [if ?b then Ok (t, false) else _] => destruct b end; [intros H; inversion H; subst; split; assumption|].
+    match goal with |- context [match ?f with Some _ => _ | None => _ end] => destruct f as [i|] eqn:Hf end.
     + intros H. inversion H; subst. apply Hres. apply find_eq_range in Hf. rewrite firstn_length, skipn_length in Hf. lia.
     + match goal with |- context [if ?c then Ok (insert_at _ _ _, true) else _] => destruct c eqn:Hc3 end; [intros H; inversion H; subst; exact Hins|].
       destruct (nth_error t (s + 2)) as [third|] eqn:Hth; [|discriminate].
